@@ -189,6 +189,9 @@ func runMutantsFiltered(prop string, baseBad map[string]bool, par int, only stri
 				switch {
 				case m.Benign && len(o.Reported) == 0:
 					o.Status = "silent"
+				case m.Benign && m.KnownFalseAlarm != "":
+					o.Status = "known-false-alarm"
+					o.Note = m.KnownFalseAlarm
 				case m.Benign:
 					o.Status = "FALSE-ALARM"
 					for _, ob := range r.Obligations {
